@@ -23,7 +23,7 @@ var ErrInjected = errors.New("injected: storage unavailable")
 type Gate struct {
 	Arrived chan struct{} // closed when the call reaches the gate
 	Release chan struct{} // close to let it go on
-	Fail    bool          // before-gates only: answer with ErrInjected instead of executing
+	Fail    bool          // before-gates: answer with ErrInjected instead of executing (request lost); after-gates: the call was executed but is answered with ErrInjected (reply lost)
 }
 
 // Ev is one logged call.
@@ -173,6 +173,10 @@ func (t *Tap) Delete(ctx context.Context, key string) error {
 	}
 	err := t.Inner.Delete(ctx, key)
 	park(after)
+	if after != nil && after.Fail {
+		t.record("Delete", n, call, ErrInjected)
+		return ErrInjected
+	}
 	t.record("Delete", n, call, err)
 	return err
 }
